@@ -10,6 +10,8 @@ INVARIANT EarlyMeansNotBig
 INVARIANT RidgeConsistent
 INVARIANT BaseConsistent
 INVARIANT PaddingNoRidge
+INVARIANT IdentityMasked
+INVARIANT RidgeOnlyIfOverridden
 INVARIANT MaskAgrees
 INVARIANT AcceptedFinite
 INVARIANT AllPadZero
